@@ -165,7 +165,11 @@ func execCases(casesPath, outPath, propsPath, statsPath string) error {
 			defer wg.Done()
 			defer func() { <-sem }()
 			journal("S", i)
-			results[i] = safeExec(e, cs[i].fields)
+			fields := cs[i].fields
+			if _, ok := e.(interface{ WantsID() }); ok {
+				fields = append([]string{cs[i].id}, fields...)
+			}
+			results[i] = safeExec(e, fields)
 			journal("E", i)
 		}(i, e)
 	}
